@@ -20,6 +20,7 @@ const (
 	mainRef    = "refs/heads/main"
 	featRef    = "refs/heads/feature"
 	openRef    = "refs/heads/scratch"
+	main2Ref   = "refs/heads/main2" // unprotected; its name extends a protected one
 	relRef     = "refs/heads/release"
 	policyRef  = policy.PolicyRef
 	stagingRef = policy.PolicyStagingRef
